@@ -6,18 +6,19 @@ From Coq Require Import List ZArith NArith Bool Permutation.
 From NV Require Import GenConsts BufsDefs BufsProps.
 Import ListNotations.
 
-(* bufs_switch(idx) rotates slots 0..idx, stores the globals in slot 0's saved view only, touches no lbuf,
-   and loads the globals from the buffer that is now current. *)
-Theorem C20_switch_permutes : forall (L : Type) (s : st L) (idx : nat),
-  let saved := upd0 (fun b => set_view b (xv s)) (bufs s) in
-  let s' := bufs_switch s idx in
-  bufs s' = switch saved idx /\ Permutation (bufs s') saved /\
-  (forall j, (1 <= j)%nat -> nth_error saved j = nth_error (bufs s) j) /\
-  (forall b, nth_error (bufs s) 0 = Some (Some b) -> nth_error saved 0 = Some (Some (set_view b (xv s)))) /\
-  map (option_map b_lb) saved = map (option_map b_lb) (bufs s) /\
+(* bufs_switch(idx): the table right before the rotation (`saved`) differs from the old table in slot 0 only --
+   the buffer being left gets the globals as its saved view and the useq++ of lbuf_modified (its command ends),
+   i.e. no buffer's text, history, marks or dirty flag changes; then slots 0..idx are rotated (a permutation)
+   and the globals are loaded from the buffer that is now current.  bufs_cnt and the file system are untouched. *)
+Theorem C20_switch_permutes : forall (L Op Out : Type) (Lo : lops L Op Out) (s : st L) (idx : nat),
+  let s' := bufs_switch Lo s idx in
+  bufs s' = switch (saved Lo s) idx /\ Permutation (bufs s') (saved Lo s) /\
+  (forall j, (1 <= j)%nat -> nth_error (saved Lo s) j = nth_error (bufs s) j) /\
+  (forall b, nth_error (bufs s) 0 = Some (Some b) ->
+     nth_error (saved Lo s) 0 = Some (Some (bump Lo (set_view b (xv s))))) /\
   xv s' = match slot0 s' with Some b => b_view b | None => viewz end /\
   cnt s' = cnt s /\ fs s' = fs s.
-Proof. intro L. exact (@switch_permutes L). Qed.
+Proof. intros L Op Out Lo. exact (switch_permutes Lo). Qed.
 Print Assumptions C20_switch_permutes.
 
 (* One command (any of :e :e! :ew :e # :b :b n :b + :b - :b % # ^ :b ! :next :prev :q :q! :w :w path, set wa,
@@ -67,13 +68,13 @@ Theorem C20_reaches_alias : forall (L Op Out : Type) (Lo : lops L Op Out) (s : s
 Proof. intros L Op Out Lo. exact (reaches_alias Lo). Qed.
 Print Assumptions C20_reaches_alias.
 
-(* :e! path / :e path under writeany, for a path that is open in slot i >= 1: the result is exactly bufs_switch to
+(* :e! path / :e path under writeany, for a path that is open in slot i >= 1: the result is exactly bufs_switch Lo to
    that slot -- no lb_rd (the event list is empty, the lbuf is the old one), the file system is not consulted. *)
 Theorem C20_reaches_path : forall (L Op Out : Type) (Lo : lops L Op Out) (s : st L) (bang : bool) (a : parg) (p : path) (i : nat) (b : buf L),
   bang || xwa s = true -> pathexpand s a = Some p -> p <> [] ->
   bufs_find s p = Some i -> (1 <= i)%nat -> nth_error (bufs s) i = Some (Some b) ->
-  ec_edit Lo s bang false a = (bufs_switch s i, [], true) /\
-  slot0 (bufs_switch s i) = Some b /\ xv (bufs_switch s i) = b_view b /\ fs (bufs_switch s i) = fs s /\ b_path b = canon p.
+  ec_edit Lo s bang false a = (bufs_switch Lo s i, [], true) /\
+  slot0 (bufs_switch Lo s i) = Some b /\ xv (bufs_switch Lo s i) = b_view b /\ fs (bufs_switch Lo s i) = fs s /\ b_path b = canon p.
 Proof. intros L Op Out Lo. exact (reaches_path Lo). Qed.
 Print Assumptions C20_reaches_path.
 
@@ -82,8 +83,8 @@ Theorem C20_reaches_alt : forall (L Op Out : Type) (Lo : lops L Op Out) (s : st 
   bang || xwa s = true ->
   nth_error (bufs s) 0 = Some (Some b0) -> nth_error (bufs s) 1 = Some (Some b1) ->
   b_path b1 <> [47%N] -> b_path b0 <> b_path b1 ->
-  fst (fst (ec_edit Lo s bang false PAlt)) = bufs_switch s 1 /\ snd (fst (ec_edit Lo s bang false PAlt)) = [] /\
-  slot0 (bufs_switch s 1) = Some b1 /\ xv (bufs_switch s 1) = b_view b1 /\ fs (bufs_switch s 1) = fs s.
+  fst (fst (ec_edit Lo s bang false PAlt)) = bufs_switch Lo s 1 /\ snd (fst (ec_edit Lo s bang false PAlt)) = [] /\
+  slot0 (bufs_switch Lo s 1) = Some b1 /\ xv (bufs_switch Lo s 1) = b_view b1 /\ fs (bufs_switch Lo s 1) = fs s.
 Proof. intros L Op Out Lo. exact (reaches_alt Lo). Qed.
 Print Assumptions C20_reaches_alt.
 
@@ -101,7 +102,7 @@ Theorem C20_quit_walk : forall (L Op Out : Type) (Lo : lops L Op Out) (s : st L)
   ((forall k, (k < NB)%nat -> dirty_at Lo s k = false) -> xquit s' = true) /\
   (forall k, (k < NB)%nat -> dirty_at Lo s k = true -> (forall k', (k' < k)%nat -> dirty_at Lo s k' = false) ->
      xquit s' = xquit s /\ exists b, nth_error (bufs s) k = Some (Some b) /\
-     slot0 s' = Some (if Nat.eqb k 0 then set_view (bump Lo b) (xv s) else bump Lo b)).
+     slot0 s' = Some (if Nat.eqb k 0 then bump Lo (set_view (bump Lo b) (xv s)) else bump Lo b)).
 Proof. intros L Op Out Lo. exact (quit_walk_thm Lo). Qed.
 Print Assumptions C20_quit_walk.
 
